@@ -20,6 +20,7 @@ import (
 type World struct {
 	plumb      map[*ssa.Function]bool
 	plumbSum   map[*ssa.Function]*Expr
+	dynTargets map[ssa.CallInstruction][]*ssa.Function
 	hooked     bool
 	initFields map[[2]any]*Expr
 	outCache   map[[2]any]*outSum
@@ -56,6 +57,7 @@ func NewWorld(p *load.Program) *World {
 		exprCache: map[exprKey]*Expr{}, sumCache: map[*ssa.Function]*Expr{}, building: map[*ssa.Function]bool{}, Roots: map[string][]*ssa.Function{}}
 	w.collectFuncs()
 	w.buildCallGraph()
+	w.resolveDynamicCalls()
 	return w
 }
 
@@ -269,7 +271,121 @@ func (w *World) CalleesOf(c ssa.CallInstruction) []*ssa.Function {
 			return []*ssa.Function{fn}
 		}
 	}
-	return nil
+	// ... or a function-typed parameter: every function handed in at a call site of the enclosing function
+	// (context-insensitive; the flat view and the guard look-through resolve the same calls in context)
+	return w.dynTargets[c]
+}
+
+// funcTargets: the in-scope functions a function value can denote (see CalleesOf). known=false when a source
+// cannot be traced.
+func (w *World) funcTargets(v ssa.Value, depth int) (out []*ssa.Function, known bool) {
+	if depth > 6 {
+		return nil, false
+	}
+	switch x := v.(type) {
+	case *ssa.Function:
+		if u := w.unwrap(x); u != nil && w.inSet[u] && len(u.Blocks) > 0 {
+			return []*ssa.Function{u}, true
+		}
+		// a synthetic wrapper around an interface method (bk.GetX as a value): its in-scope implementers
+		for _, b := range x.Blocks {
+			for _, in := range b.Instrs {
+				if call, ok := in.(ssa.CallInstruction); ok && call.Common().IsInvoke() {
+					out = append(out, w.CalleesOf(call)...)
+				}
+			}
+		}
+		return out, true
+	case *ssa.MakeClosure:
+		return w.funcTargets(x.Fn, depth+1)
+	case *ssa.ChangeType:
+		return w.funcTargets(x.X, depth+1)
+	case *ssa.Phi:
+		known = true
+		for _, e := range x.Edges {
+			ts, k := w.funcTargets(e, depth+1)
+			out = append(out, ts...)
+			known = known && k
+		}
+		return out, known
+	case *ssa.Parameter:
+		f := x.Parent()
+		idx := -1
+		for i, p := range f.Params {
+			if p == x {
+				idx = i
+			}
+		}
+		if idx < 0 {
+			return nil, false
+		}
+		known = true
+		n := 0
+		for _, ed := range w.callers[f] {
+			cs, ok := ed.Site.(ssa.CallInstruction)
+			if !ok || ed.Kind != "static" && ed.Kind != "invoke" && ed.Kind != "dynamic" {
+				continue
+			}
+			cc := cs.Common()
+			args := cc.Args
+			if cc.IsInvoke() {
+				args = append([]ssa.Value{cc.Value}, args...)
+			}
+			j := idx - (len(f.Params) - len(args))
+			if j < 0 || j >= len(args) {
+				continue
+			}
+			n++
+			ts, k := w.funcTargets(args[j], depth+1)
+			out = append(out, ts...)
+			known = known && k
+		}
+		return out, known && n > 0
+	}
+	return nil, false
+}
+
+// resolveDynamicCalls adds call-graph edges for calls through function-typed parameters (to a fixpoint: a callback
+// may itself be handed on).
+func (w *World) resolveDynamicCalls() {
+	w.dynTargets = map[ssa.CallInstruction][]*ssa.Function{}
+	for round := 0; round < 4; round++ {
+		changed := false
+		for _, f := range w.Funcs {
+			for _, b := range f.Blocks {
+				for _, in := range b.Instrs {
+					call, ok := in.(ssa.CallInstruction)
+					if !ok {
+						continue
+					}
+					cc := call.Common()
+					if cc.IsInvoke() || cc.StaticCallee() != nil {
+						continue
+					}
+					switch cc.Value.(type) {
+					case *ssa.Builtin, *ssa.MakeClosure:
+						continue
+					}
+					ts, _ := w.funcTargets(cc.Value, 0)
+					have := map[*ssa.Function]bool{}
+					for _, t := range w.dynTargets[call] {
+						have[t] = true
+					}
+					for _, t := range ts {
+						if t != nil && !have[t] {
+							have[t] = true
+							w.dynTargets[call] = append(w.dynTargets[call], t)
+							w.addEdge(Edge{From: f, To: t, Site: in, Kind: "dynamic"})
+							changed = true
+						}
+					}
+				}
+			}
+		}
+		if !changed {
+			break
+		}
+	}
 }
 
 func (w *World) Callees(f *ssa.Function) []Edge { return w.callees[f] }
